@@ -15,7 +15,8 @@ RULE = ("cases = own MapSpec AST generator (vlib.mapgen: 1..4 probe functions, r
         "zip/outer/partial ':'/full ':'/whole args, internal axes at any position, generator functions, tuple "
         "outputs, functions without MapSpec, list vs ndarray inputs) from VERIF_SEED, plus a fixed list of "
         "structural regression shapes; each run sequentially under file_array / dict / shared_memory_dict / "
-        "per-output mixes; non-trivial = some MapSpec function with >=2 external elements, a ':' reduction or an "
+        "per-output mixes; every third generated case additionally repeats the map with cleanup=False after a first run that was "
+        "cut short by a fault in one invocation (a raise, or an unstorable last output of a tuple-output function); non-trivial = some MapSpec function with >=2 external elements, a ':' reduction or an "
         "internal axis; distinct = distinct (MapSpec strings, internal shapes, input shapes and kinds)")
 ASSUMPTIONS = ["oracle is the denotation of the harness's own AST (vlib.mapgen.oracle); never imports pipefunc",
                "probe functions return term strings, so equality of renderings is equality of call trees",
@@ -234,15 +235,61 @@ def check_run(v, case, st, storage, env, exp_calls, scratch, cfg=""):
     return ok
 
 
+def check_repeat_after_fault(v, case, env, exp_calls, scratch, i):
+    """A first run is cut short by a fault inside one invocation (a raise, or - for tuple-output functions - a
+    last output that cannot be stored); the same valid request repeated with cleanup=False must not be refused and
+    must return the denotation."""
+    import random
+
+    rng = random.Random(f"c01fault:{i}")
+    cands = [(f, eidx, t) for f in case["funcs"] for eidx, t in exp_calls[f["name"]]]
+    if not cands:
+        return
+    tup = [(f, eidx, t) for f, eidx, t in cands if len(f["outs"]) > 1 and f["mapspec"] and not f["internal_shape"]
+           and any(isinstance(m, list) for m in f["modes"].values())]
+    f, eidx, t = rng.choice(tup) if tup else rng.choice(cands)
+    kind = "unpicklable" if tup else "raise"
+    fault = {f["name"]: ({"unpicklable": {t: 1}} if kind == "unpicklable" else {"raise": {t: ["ValueError", "injected"]}})}
+    folder = os.path.join(scratch, "run-fault")
+    inputs = mapgen.make_inputs(case)
+    w = dict(case=mapgen.describe(case), fault=[kind, f["name"], t])
+    try:
+        with quiet():
+            p1 = mapgen.build_pipeline(case, fault=fault)
+            p1.map(inputs, run_folder=folder, internal_shapes=mapgen.internal_shapes_arg(case), storage="file_array", parallel=False)
+        return  # the fault did not stop the run (e.g. value never pickled): nothing to repeat
+    except Exception:  # noqa: BLE001
+        pass
+    v.count("first_runs_cut_short")
+    v.count(f"first_runs_cut_short:{kind}")
+    try:
+        with quiet():
+            p2 = mapgen.build_pipeline(case)
+            res = p2.map(inputs, run_folder=folder, internal_shapes=mapgen.internal_shapes_arg(case), storage="file_array",
+                         parallel=False, cleanup=False)
+    except Exception as e:  # noqa: BLE001
+        v.bad(exc_sig(e, f"refused-map-repeated-after-{kind}"), f"valid map repeated with cleanup=False after a faulted first run was refused: {exc_msg(e)}", **w)
+        return
+    for g in case["funcs"]:
+        for o in g["outs"]:
+            if probes.render(res[o].output) != probes.render(env[o]):
+                v.bad(f"mismatch:result-repeated-after-{kind}", f"{o} differs from the denotation when the map is repeated after a faulted run",
+                      got=probes.render(res[o].output)[:400], expected=probes.render(env[o])[:400], **w)
+                return
+
+
 def run_case(desc):
     case = get_case(desc)
     v = V()
     env, exp_calls = mapgen.oracle(case)
     v.classes.update(mapgen.classes(case))
     with tmpdir("c01-") as scratch:
+        ok = True
         for st in desc["storages"]:
             storage = storage_arg(case, st, desc["i"])
-            check_run(v, case, st, storage, env, exp_calls, scratch)
+            ok = check_run(v, case, st, storage, env, exp_calls, scratch) and ok
+        if ok and desc["kind"] == "gen" and desc["i"] % 3 == 0:
+            check_repeat_after_fault(v, case, env, exp_calls, scratch, desc["i"])
     nt = mapgen.nontrivial(case)
     return v.result(key=mapgen.signature(case) if nt else None,
                     sample={"case": mapgen.describe(case), "storages": desc["storages"],
@@ -259,6 +306,8 @@ def finalize(agg, tier, seed):
               "partial_colon", "zip", "outer", "nomapspec", "root_list", "permuted_out_axes", "colon_on_tuple_output"]:
         if agg.classes.get(c, 0) < 10:
             floors.append(f"structural class {c} hit only {agg.classes.get(c, 0)} times (< 10)")
+    if agg.counters.get("first_runs_cut_short:unpicklable", 0) < 20 or agg.counters.get("first_runs_cut_short:raise", 0) < 50:
+        floors.append("too few faulted-first-run / repeat scenarios")
     for k in ["runs_file_array", "runs_dict", "runs_shared_memory_dict", "runs_mix"]:
         if agg.counters.get(k, 0) < 50:
             floors.append(f"{k}={agg.counters.get(k, 0)} (< 50)")
